@@ -226,7 +226,35 @@ var S8 = Schema{
 
 var Schemas = []*Schema{&S1, &S2, &S3, &S4, &S5, &S6, &S7, &S8}
 
+// S9 is the bulk table: row counts at the undo executors' IN-list batch size (1000). It is not part of Schemas - only C01
+// enumerates it (sixth-round seed) - but every closed system creates it.
+var S9 = Schema{
+	ID: "s9", Table: "t_s9", PK: []string{"id"},
+	DDL:  "CREATE TABLE t_s9 (id INT NOT NULL, cnt INT NOT NULL DEFAULT 0, PRIMARY KEY (id))",
+	Rows: bulkRows(2001),
+	Stmts: []Stmt{
+		st("update", "upd-all", "UPDATE t_s9 SET cnt = cnt + 1"),
+		st("delete", "del-all", "DELETE FROM t_s9"),
+	},
+}
+
+func bulkRows(n int) []string {
+	out := make([]string, n)
+	for i := range out {
+		out[i] = fmt.Sprintf("(%d,%d)", i+1, i%7)
+	}
+	return out
+}
+
+// Extra holds schemas created in every closed system but enumerated only by the checks that name them.
+var Extra = []*Schema{&S9}
+
 func SchemaByID(id string) *Schema {
+	for _, s := range Extra {
+		if s.ID == id {
+			return s
+		}
+	}
 	for _, s := range Schemas {
 		if s.ID == id {
 			return s
